@@ -25,6 +25,7 @@ ENGINES = {
     "e_bytes_fuzz": ("e_bytes_fuzz.cpp", "clang++", ["-std=gnu++17", "-g", "-O1", "-DCTPG_VERIF", "-DCTPG_VERIF_BOUNDS", "-fno-omit-frame-pointer", "-fbracket-depth=1024", "-fconstexpr-steps=100000000",
                      "-fsanitize=fuzzer,address,undefined", "-fno-sanitize-recover=undefined"], ["-lpthread"]),
     "e_helpers": ("e_helpers.cpp", "clang++", ["-std=gnu++17", "-O0", "-DCTPG_VERIF", "-fbracket-depth=1024"], ["-lrapidcheck", "-lpthread"]),
+    "e_helpers_gxx": ("e_helpers.cpp", "g++", ["-std=gnu++17", "-O0", "-DCTPG_VERIF"], ["-lrapidcheck", "-lpthread"]),
     "e_lexer": ("e_lexer.cpp", "clang++", BASE + SAN + ["-DCTPG_VERIF_BOUNDS"], ["-lrapidcheck", "-lpthread"]),
     "e_regex": ("e_regex.cpp", "clang++", BASE + SAN + ["-DCTPG_VERIF_BOUNDS"], ["-lrapidcheck", "-lpthread"]),
 }
